@@ -620,12 +620,13 @@ impl Cx<'_> {
         if self.p.nasty_docs && t.pct(25) {
             lines.push(t.pick(DOC_NASTY).to_string());
         }
-        let style = match t.weighted(&[60, 20, 20]) {
+        let style = match t.weighted(&[55, 18, 17, 10]) {
             0 => DocStyle::Line,
             1 => DocStyle::Attr,
-            _ => DocStyle::Block,
+            2 => DocStyle::Block,
+            _ => DocStyle::BlockThenAttrs,
         };
-        if style == DocStyle::Block {
+        if style == DocStyle::Block || style == DocStyle::BlockThenAttrs {
             // (rendered as one multi-line `#[doc = ".."]` attribute, so `*/` is allowed in it)
             if !self.p.nasty_docs {
                 lines.retain(|l| !l.contains("*/"));
@@ -642,7 +643,7 @@ impl Cx<'_> {
         }
         // `#[doc = "/.."]`: a text that starts with a slash (right behind the `*` of the comment)
         if style != DocStyle::Line && t.pct(12) {
-            let k = if style == DocStyle::Block { 0 } else { t.choose(lines.len()) };
+            let k = if style != DocStyle::Attr { 0 } else { t.choose(lines.len()) };
             lines[k] = format!("/{}", lines[k].trim_start());
         }
         Some(Doc { lines, style })
@@ -1216,6 +1217,21 @@ fn name_games(cx: &mut Cx, t: &mut Tape) {
             }
         }
     }
+    // a file-form `export_to` that does not end in `.ts` is taken verbatim too (only for a type
+    // nothing else refers to: TypeScript could not import from such a file)
+    if cx.p.export_to > 0 && t.pct(cx.p.export_to / 3) {
+        let referenced: std::collections::BTreeSet<usize> = (0..n).flat_map(|d| model::inline_closure(&cx.types, d)).collect();
+        let cands: Vec<usize> = (0..n).filter(|i| !referenced.contains(i)).collect();
+        if !cands.is_empty() {
+            let i = *t.pick(&cands);
+            let dir = *t.pick(&["", "gen/", "models/"]);
+            let file = *t.pick(&["schema", "api.v2", "module.d.mts", "bindings.tsx", "noext"]);
+            let path = format!("{dir}{file}");
+            if !cx.types.iter().any(|o| o.expected_path() == path) {
+                cx.types[i].attrs.export_to = Some(path);
+            }
+        }
+    }
     if n >= 3 && t.pct(cx.p.twin_names) {
         // all pairs no *file* sees together (j moves into a file of its own)
         let closures: Vec<std::collections::BTreeSet<usize>> = (0..n)
@@ -1300,6 +1316,7 @@ pub fn gen_module(words: &[u32], profile: &Profile, name: &str) -> Module {
                     let user_cands: Vec<usize> = (0..i)
                         .filter(|j| cx.types[*j].params.is_empty() && cx.types[*j].lifetimes.is_empty() && cx.types[*j].consts.is_empty())
                         .filter(|j| !(twin_of(*j) && names_inside.contains(&cx.types[*j].ts_name())))
+                        .filter(|j| cx.types[*j].expected_path().ends_with(".ts"))
                         .collect();
                     if !user_cands.is_empty() && t.pct(35) {
                         args.push(TyExpr::User(*t.pick(&user_cands), vec![]));
